@@ -43,12 +43,18 @@ theorem setBalance_acct (k : Keeper) (a v N : Nat) (h : a < N) :
   omega
 
 theorem keysFold_same (o : Obj) (a : Nat) (keys : List Nat) : ∀ k : Keeper,
-    (keys.foldl (fun kk key => { kk with store := upd kk.store a (upd (kk.store a) key (o.stor key)) }) k).bal = k.bal ∧
-    (keys.foldl (fun kk key => { kk with store := upd kk.store a (upd (kk.store a) key (o.stor key)) }) k).supply = k.supply ∧
-    (keys.foldl (fun kk key => { kk with store := upd kk.store a (upd (kk.store a) key (o.stor key)) }) k).exist = k.exist := by
+    (keys.foldl (writeSlot o a) k).bal = k.bal ∧
+    (keys.foldl (writeSlot o a) k).supply = k.supply ∧
+    (keys.foldl (writeSlot o a) k).exist = k.exist := by
   induction keys with
   | nil => intro k; exact ⟨rfl, rfl, rfl⟩
-  | cons x xs ih => intro k; simp only [List.foldl_cons]; exact ih _
+  | cons x xs ih =>
+    intro k
+    simp only [List.foldl_cons]
+    obtain ⟨h1, h2, h3⟩ := ih (writeSlot o a k x)
+    rw [h1, h2, h3]
+    unfold writeSlot
+    split <;> exact ⟨rfl, rfl, rfl⟩
 
 theorem commitOne_acct (db : DB) (k : Keeper) (a N : Nat) (keys : List Nat) (h : a < N) :
     (commitOne db k a keys).supply + (sumTo k.bal N : Int) = k.supply + (sumTo (commitOne db k a keys).bal N : Int) := by
@@ -231,15 +237,49 @@ theorem commit_supply (db : DB) (keys : List Nat) (N : Nat) (hg : Good db N) :
   simp only [T, B]
   omega
 
+/-- Commit changes a cached object only in what it remembers as committed storage -/
+theorem commit_objs (db : DB) (addrs keys : List Nat) (a : Nat) :
+    (commit db addrs keys).objs a = db.objs a ∨
+    (commit db addrs keys).objs a = (db.objs a).map (fun o => flushObj o keys) := by
+  simp only [commit]
+  split
+  · right; rfl
+  · left; rfl
+
+theorem flushObj_same (o : Obj) (keys : List Nat) :
+    (flushObj o keys).bal = o.bal ∧ (flushObj o keys).suicided = o.suicided ∧ (flushObj o keys).nonce = o.nonce ∧
+    (flushObj o keys).stor = o.stor := by
+  unfold flushObj; split <;> exact ⟨rfl, rfl, rfl, rfl⟩
+
+theorem commit_objs_none (db : DB) (addrs keys : List Nat) (a : Nat) :
+    (commit db addrs keys).objs a = none ↔ db.objs a = none := by
+  rcases commit_objs db addrs keys a with h | h <;> rw [h]
+  cases db.objs a <;> simp
+
+theorem commit_objs_some (db : DB) (addrs keys : List Nat) (a : Nat) (o' : Obj)
+    (h' : (commit db addrs keys).objs a = some o') :
+    ∃ o, db.objs a = some o ∧ o'.bal = o.bal ∧ o'.suicided = o.suicided := by
+  rcases commit_objs db addrs keys a with h | h <;> rw [h] at h'
+  · exact ⟨o', h', rfl, rfl⟩
+  · cases ho : db.objs a with
+    | none => rw [ho] at h'; simp at h'
+    | some o =>
+      rw [ho] at h'
+      simp only [Option.map_some, Option.some.injEq] at h'
+      obtain ⟨h1, h2, _, _⟩ := flushObj_same o keys
+      exact ⟨o, rfl, by rw [← h', h1], by rw [← h', h2]⟩
+
 theorem view_commit (db : DB) (keys : List Nat) (N : Nat) (hg : Good db N) :
     view (commit db (List.range N) keys) = view db := by
   funext a
   simp only [view, DB.get]
-  have hobj : (commit db (List.range N) keys).objs = db.objs := rfl
-  rw [hobj]
   cases ho : db.objs a with
-  | some o => rfl
+  | some o =>
+    rcases commit_objs db (List.range N) keys a with h | h <;> rw [h, ho]
+    simp only [Option.map_some]
+    rw [(flushObj_same o keys).1]
   | none =>
+    rw [(commit_objs_none db (List.range N) keys a).2 ho]
     simp only
     have hd : db.dirties a = 0 := by
       by_cases h : 0 < db.dirties a
@@ -256,7 +296,13 @@ theorem view_commit (db : DB) (keys : List Nat) (N : Nat) (hg : Good db N) :
 theorem good_commit (db : DB) (keys : List Nat) (N : Nat) (hg : Good db N) :
     Good (commit db (List.range N) keys) N := by
   have hv := view_commit db keys N hg
-  refine ⟨?_, ?_, hg.dc, hg.ns, hg.bd⟩
+  refine ⟨?_, ?_, ?_, ?_, hg.bd⟩
+  rotate_left 2
+  · intro a hd hn
+    exact hg.dc a hd ((commit_objs_none db (List.range N) keys a).1 hn)
+  · intro a o' ho'
+    obtain ⟨o, ho, _, hs⟩ := commit_objs_some db (List.range N) keys a o' ho'
+    rw [hs]; exact hg.ns a o ho
   · intro a he
     rw [commit_k] at he ⊢
     obtain ⟨h1, h2⟩ := cfold_bal db keys N hg N a
@@ -363,41 +409,45 @@ theorem good_load (db : DB) (N a : Nat) (hg : Good db N) : Good (db.load a) N :=
   · intro b hb; rw [hd]; exact hg.bd b hb
 
 /-- writing a non-destructed object for `a` through a journal entry that marks `a` dirty -/
+theorem push_setObj_k (db : DB) (a : Nat) (e : Entry) (o' : Obj) : ((db.push e).setObj a o').k = db.k := by
+  simp [DB.setObj, DB.push_def]
+
 theorem good_setObj (db : DB) (N a : Nat) (e : Entry) (o' : Obj) (hg : GoodEx db N a) (ha : a < N)
     (he : e.dirtied = some a) (hs : o'.suicided = false) :
     Good ((db.push e).setObj a o') N ∧ view ((db.push e).setObj a o') = upd (view db) a o'.bal ∧
     ((db.push e).setObj a o').k = db.k := by
+  have hk := push_setObj_k db a e o'
   have hget : ∀ b, ((db.push e).setObj a o').get b = if b = a then some o' else db.get b := by
     intro b
-    simp only [DB.get, DB.setObj, DB.push, upd]
+    simp only [DB.get, DB.setObj, DB.push_def, upd]
     by_cases hb : b = a
     · simp [hb]
     · simp only [hb, if_false]
-      first | rfl | (cases hob : db.objs b <;> rfl)
+      first | done | rfl | (cases hob : db.objs b <;> rfl)
   have hview : view ((db.push e).setObj a o') = upd (view db) a o'.bal := by
     funext b
     simp only [view, hget, upd]
     by_cases hb : b = a <;> simp [hb]
   have hdirt : ((db.push e).setObj a o').dirties = upd db.dirties a (db.dirties a + 1) := by
-    simp [DB.setObj, DB.push, he]
-  refine ⟨⟨hg.wf, ?_, ?_, ?_, ?_⟩, hview, rfl⟩
+    simp [DB.setObj, DB.push_def, he]
+  refine ⟨⟨by rw [hk]; exact hg.wf, ?_, ?_, ?_, ?_⟩, hview, hk⟩
   · intro b hb
     rw [hdirt] at hb
     have hba : b ≠ a := by
       intro h; subst h; simp at hb
     rw [upd_other _ _ _ _ hba] at hb
-    rw [hview, upd_other _ _ _ _ hba]
+    rw [hview, upd_other _ _ _ _ hba, hk]
     exact hg.coh b hba hb
   · intro b hb
     rw [hdirt] at hb
-    simp only [DB.setObj, DB.push, upd]
+    simp only [DB.setObj, DB.push_def, upd]
     by_cases hba : b = a
     · simp [hba]
     · rw [upd_other _ _ _ _ hba] at hb
       simp only [hba, if_false]
       exact hg.dc b hb
   · intro b ob hob
-    simp only [DB.setObj, DB.push, upd] at hob
+    simp only [DB.setObj, DB.push_def, upd] at hob
     by_cases hba : b = a
     · simp only [hba, if_true, Option.some.injEq] at hob
       rw [← hob]; exact hs
@@ -439,12 +489,12 @@ theorem good_ensure (db : DB) (N a : Nat) (hg : Good db N) (ha : a < N) :
   | some o => exact ⟨hgl, hvl, hkl, o, hget⟩
   | none =>
     simp only
-    obtain ⟨g, v, k⟩ := good_setObj (db.load a) N a (.create a) { bal := 0, nonce := 0, suicided := false, stor := (db.load a).k.store a } (hgl.toEx a) ha rfl rfl
+    obtain ⟨g, v, k⟩ := good_setObj (db.load a) N a (.create a) { bal := 0, nonce := 0, suicided := false, stor := (db.load a).k.store a, base := (db.load a).k.store a } (hgl.toEx a) ha rfl rfl
     refine ⟨g, ?_, k.trans hkl, ?_⟩
     · rw [v, ← hvl]
       exact upd_eq_self _ _ _ (view_of_none (db.load a) a hget)
-    · refine ⟨{ bal := 0, nonce := 0, suicided := false, stor := (db.load a).k.store a }, ?_⟩
-      simp [DB.get, DB.setObj, DB.push]
+    · refine ⟨{ bal := 0, nonce := 0, suicided := false, stor := (db.load a).k.store a, base := (db.load a).k.store a }, ?_⟩
+      simp [DB.get, DB.setObj, DB.push_def]
 
 theorem good_setBal (db : DB) (N a v : Nat) (hg : GoodEx db N a) (ha : a < N) (o : Obj) (h : db.get a = some o) :
     Good (mstep db (.setBal a v)) N ∧ view (mstep db (.setBal a v)) = upd (view db) a v ∧
@@ -529,16 +579,17 @@ theorem g2_setObj (db : DB) (N a : Nat) (e : Entry) (o' : Obj) (h : Good2 db N) 
   refine ⟨?_, ?_⟩
   · intro b hb
     have hba : b ≠ a := by omega
-    simp only [DB.setObj, DB.push, upd, hba, if_false]
+    simp only [DB.setObj, DB.push_def, upd, hba, if_false]
     exact h.cb b hb
   · intro b ob hob hd
     have hdirt : ((db.push e).setObj a o').dirties = upd db.dirties a (db.dirties a + 1) := by
-      simp [DB.setObj, DB.push, he]
+      simp [DB.setObj, DB.push_def, he]
     rw [hdirt] at hd
     by_cases hba : b = a
     · subst hba; simp at hd
     · rw [upd_other _ _ _ _ hba] at hd
-      simp only [DB.setObj, DB.push, upd, hba, if_false] at hob
+      simp only [DB.setObj, DB.push_def, upd, hba, if_false] at hob
+      rw [push_setObj_k]
       exact h.ce b ob hob hd
 
 theorem g2_load (db : DB) (N a : Nat) (h : Good2 db N) (ha : a < N) : Good2 (db.load a) N := by
@@ -610,12 +661,12 @@ theorem g2_mstep (db : DB) (N : Nat) (op : MOp) (h : Good2 db N) (ha : ∀ a, op
       refine ⟨?_, ?_⟩
       · intro b hb
         have hba : b ≠ a := by omega
-        simp only [DB.setObj, DB.push, upd, hba, if_false]
+        simp only [DB.setObj, DB.push_def, upd, hba, if_false]
         exact hl.cb b hb
       · intro b ob hob hd
         have hdirt : ((DB.push (db.load a) (.reset a prev)).setObj a
-            { bal := prev.bal, nonce := 0, suicided := false, stor := (db.load a).k.store a }).dirties = (db.load a).dirties := by
-          simp [DB.setObj, DB.push, Entry.dirtied]
+            { bal := prev.bal, nonce := 0, suicided := false, stor := (db.load a).k.store a, base := (db.load a).k.store a }).dirties = (db.load a).dirties := by
+          simp [DB.setObj, DB.push_def, Entry.dirtied]
         rw [hdirt] at hd
         show (db.load a).k.exist b = true
         by_cases hba : b = a
@@ -629,7 +680,7 @@ theorem g2_mstep (db : DB) (N : Nat) (op : MOp) (h : Good2 db N) (ha : ∀ a, op
             by_cases he : (db.load b).k.exist b = true
             · exact he
             · simp [he] at hget
-        · simp only [DB.setObj, DB.push, upd, hba, if_false] at hob
+        · simp only [DB.setObj, DB.push_def, upd, hba, if_false] at hob
           exact hl.ce b ob hob hd
   | setRefund v => exact ⟨h.cb, h.ce⟩
   | addLog => exact ⟨h.cb, h.ce⟩
@@ -680,8 +731,9 @@ theorem g2_setState (db : DB) (N a key v : Nat) (h : Good2 db N) (ha : a < N) : 
 
 theorem g2_commit (db : DB) (keys : List Nat) (N : Nat) (hg : Good db N) (h : Good2 db N) :
     Good2 (commit db (List.range N) keys) N := by
-  refine ⟨h.cb, ?_⟩
-  intro a o ho hd
+  refine ⟨fun a ha => (commit_objs_none db (List.range N) keys a).2 (h.cb a ha), ?_⟩
+  intro a o' ho' hd
+  obtain ⟨o, ho, _, _⟩ := commit_objs_some db (List.range N) keys a o' ho'
   rw [commit_k, (cfold_bal db keys N hg N a).2]
   have hd' : db.dirties a = 0 := hd
   have : ¬ (a < N ∧ 0 < db.dirties a) := by intro ⟨_, y⟩; omega
@@ -727,7 +779,7 @@ theorem syncOne_objs_other (db : DB) (a b : Nat) (h : b ≠ a) :
       · exact ⟨rfl, rfl⟩
       · split
         · exact ⟨rfl, rfl⟩
-        · simp [DB.setObj, DB.push, Entry.dirtied, upd, h]
+        · simp [DB.setObj, DB.push_def, Entry.dirtied, upd, h]
 
 theorem syncOne_self (db : DB) (a : Nat) (o : Obj) (ho : db.objs a = some o) (hs : o.suicided = false)
     (he : db.k.exist a = true) :
@@ -740,7 +792,7 @@ theorem syncOne_self (db : DB) (a : Nat) (o : Obj) (ho : db.objs a = some o) (hs
     refine ⟨?_, Nat.le_refl _⟩
     rw [ho]; congr 1; cases o; simp_all
   · simp only [hb, if_false]
-    simp [DB.setObj, DB.push, Entry.dirtied]
+    simp [DB.setObj, DB.push_def, Entry.dirtied]
 
 /-- what the fold needs to carry -/
 structure SyncInv (db0 db : DB) : Prop where
@@ -1063,7 +1115,8 @@ theorem estep_inv (N : Nat) (keys : List Nat) (s0 : Int) (db : DB) (op : EOp) (h
     obtain ⟨ms, me, mw⟩ := moves_facts N moves (commit db (List.range N) keys).k
     have hobj : ∀ b o, (commit db (List.range N) keys).objs b = some o →
         (moves.foldl (fun k m => k.move N m) (commit db (List.range N) keys).k).exist b = true := by
-      intro b o hb
+      intro b o' hb'
+      obtain ⟨o, hb, _, _⟩ := commit_objs_some db (List.range N) keys b o' hb'
       exact me b (commit_cached_exist db keys N hg0 hg20 b o hb)
     obtain ⟨hk, hview, gS, g2S⟩ := sync_spec
       { commit db (List.range N) keys with k := moves.foldl (fun k m => k.move N m) (commit db (List.range N) keys).k } N
@@ -1146,7 +1199,7 @@ theorem unsynced_counterexample :
     let db3 : DB := { db2 with k := db2.k.debit 0 1000000 }      -- the Cosmos message debits the origin; no SyncBalances
     let db4 := commit db3 [0, 1] []                              -- end of the transaction
     db4.k.supply = 1000000 ∧ db4.k.bal 0 = 1999223 ∧ db3.k.bal 0 = 999223 := by
-  simp [DB.new, kc, addBalance, subBalance, ensure, mstep, mstepCore, DB.load, MOp.addr, DB.get, DB.push, DB.setObj, Entry.dirtied, commit,
+  simp [DB.new, kc, addBalance, subBalance, ensure, mstep, mstepCore, DB.load, MOp.addr, DB.get, DB.push_def, DB.setObj, Entry.dirtied, commit, writeSlot, flushObj,
     commitOne, Keeper.setBalance, Keeper.debit, upd]
 
 /-- … and with SyncBalances after the message the same history conserves the supply -/
@@ -1157,7 +1210,7 @@ theorem synced_same_history :
     let db3 := syncBalances { db2 with k := db2.k.debit 0 1000000 } [0, 1]
     let db4 := commit db3 [0, 1] []
     db4.k.supply = 0 ∧ db4.k.bal 0 = 999223 := by
-  simp [DB.new, kc, addBalance, subBalance, ensure, mstep, mstepCore, DB.load, MOp.addr, DB.get, DB.push, DB.setObj, Entry.dirtied, commit,
+  simp [DB.new, kc, addBalance, subBalance, ensure, mstep, mstepCore, DB.load, MOp.addr, DB.get, DB.push_def, DB.setObj, Entry.dirtied, commit, writeSlot, flushObj,
     commitOne, Keeper.setBalance, Keeper.debit, upd, syncBalances, syncOne]
 
 end Haqq.SDB
